@@ -10,13 +10,17 @@
 
    Status: die_rt, alloc_rt, netgen_<topology> (all seven, every size of the domain),
    named_edges_pure: PROVED.  solution_netlist_rt / legal_netlist_rt: the full statements
-   are FALSE of the code as it is (open findings F14b, F14c): _refuted by witnesses; no
-   _partial theorem is proved for them (the sub-class without weights / terminal / flip /
-   aspect ratio / regions is covered by the correspondence and the direct oracle only).
+   are FALSE of the code as it is (open findings F14b, F14c): _refuted by witnesses.
+   solution_netlist_rt_partial is proved on the part of the preserved sub-class that needs no
+   STOG reasoning (soft modules given by a single ground area and a centre, nets of weight 1);
+   missing for the rest of the sub-class (modules with rectangles, hard / fixed modules, modules
+   in the result) and for legal_netlist_rt_partial: that create_stog recognises again the trunk
+   of the rectangles as they are written (trunk first, then N, S, E, W) - the canonical-design
+   obligation of C04; there the correspondence and the direct oracle speak.
    Grid with --add-centers and the FloorSet converter: correspondence + oracle only. *)
 From FrameModel Require Import Num.QcTac Geometry.Rect Alloc.Alloc Yaml.Tree Yaml.NetlistRead Yaml.NetlistWrite
   Yaml.Netgen Yaml.NetgenFacts Yaml.NetgenHTree Yaml.DieAlloc Yaml.DieAllocFacts Yaml.Producers
-  Yaml.ProducersFacts.
+  Yaml.ProducersFacts Yaml.ProducersPartial.
 Open Scope Qc_scope.
 
 (* ---------------- the die ---------------- *)
@@ -131,6 +135,18 @@ Print Assumptions C19_named_edges_found_refuted.
 (* ---------------- the string builders ---------------- *)
 Definition C19_solution_netlist_rt_statement : Prop := solution_netlist_rt_statement.
 Definition C19_legal_netlist_rt_statement : Prop := legal_netlist_rt_statement.
+
+(* on soft modules given by area and centre with unit-weight nets the document is accepted
+   back with the same modules and nets *)
+Theorem C19_solution_netlist_rt_partial : forall sqrt_o epsdef xs nets rects eps,
+  forallb (fun x => Qcltb 0 (c_area x) && valid_identifier (c_name x)) xs = true ->
+  nodup_str (map c_name xs) = true ->
+  forallb (unit_net_ok (map c_name xs)) nets = true ->
+  let n := mkNetlist (map cmodule xs) nets rects eps in
+  exists t n', solution_to_netlist n [] = Some t /\ read_netlist sqrt_o epsdef t = Ok n' /\
+               nl_modules n' = nl_modules n /\ nl_nets n' = nl_nets n.
+Proof. exact solution_netlist_rt_partial. Qed.
+Print Assumptions C19_solution_netlist_rt_partial.
 
 Theorem C19_solution_netlist_rt_refuted : forall sqrt_o,
   (exists n t n', read_netlist sqrt_o eps_ref doc_weight = Ok n /\ solution_to_netlist n [] = Some t /\
